@@ -103,6 +103,38 @@ theorem execGet_fst_congr (props : JVal) (s s' : State) (hn : s'.a.names = s.a.n
   | error e => rfl
   | ok u => simp only [getW_fst_congr u s s' hw]
 
+theorem getBody_ne_future (w : Watcher) (keys : JVal) (tid : Nat) (x : String) : getBody w keys ≠ .ok (.future tid x) := by
+  unfold getBody
+  split
+  · intro h; cases h
+  · split <;> (intro h; cases h)
+theorem globalOptionsBody_ne_future (props : JVal) (tid : Nat) (x : String) :
+    globalOptionsBody props ≠ .ok (.future tid x) := by
+  unfold globalOptionsBody
+  simp only
+  split
+  · intro h; cases h
+  · split
+    · intro h; cases h
+    · split
+      · split <;> (intro h; cases h)
+      · intro h; cases h
+
+/-- `options` / `get` never hand back a future: the answer is computed in the call -/
+theorem execOptions_ne_future (props : JVal) (s : State) (tid : Nat) (x : String) :
+    (execOptions props s).1 ≠ .ok (.future tid x) := by
+  rw [execOptions_eq]
+  simp only
+  cases (getWatcherCmd ((props.get? "name").getD .null) s).1 <;> (intro h; cases h)
+
+theorem execGet_ne_future (props : JVal) (s : State) (tid : Nat) (x : String) :
+    (execGet props s).1 ≠ .ok (.future tid x) := by
+  rw [execGet_eq]
+  simp only
+  cases (getWatcherCmd ((props.get? "name").getD .null) s).1 with
+  | error e => intro h; cases h
+  | ok u => exact getBody_ne_future _ _ tid x
+
 /-! `validate` + `execute` of the two commands -/
 
 theorem validateExecute_options (props : JVal) (s : State) (h : props.has "name" = true) :
